@@ -3,6 +3,9 @@ CONSTANTS
   Rollback = TRUE
   NsProviderOrder = "fixed"
   MaxBatch = 3
+  MultiNsPrecheck = "all-first"
+  RollbackKinds = "all"
+  SchemaListRollback = TRUE
 INVARIANT Atomic
 INVARIANT Completes
 CHECK_DEADLOCK FALSE
